@@ -95,6 +95,7 @@ def gen_spec(rng, solver, df, pen, seed, coords, variant):
                 # survival targets: all times distinct (every censored observation is then a time without any event),
                 # tied, or tied in non-adjacent rows
                 ties=[False, True, "nonadjacent"][variant % 3],
+                censor_all=bool(df == "Cox" and variant % 8 == 6),        # no event at all (index arrays of events are empty)
                 # empty columns (CSC) / all-zero columns, at the end of the feature axis more often than elsewhere
                 mutate_X=[None, "zero_col@first", "zero_col@last", "zero_col@last", None, "zero_col@last", None, "zero_cols_many"][variant % 8]
                 if p > 3 else None,
@@ -210,6 +211,18 @@ def post(results):
         a, a2, b = runs["plain"].get(cid), runs["plain_alt"].get(cid), runs["checked"].get(cid)
         first = a or a2 or b
         base = dict(id=cid, cell=first.get("cell"), digest=first.get("spec_digest") or digest(cid))
+        if a and a2 and b and "harness_error" not in a and "harness_error" not in a2 and \
+                ("IndexError" in b.get("harness_error", "") or "out of bounds" in b.get("harness_error", "")):
+            # the bounds checker fired before the solver was even called (datafit / penalty initialisation on the data),
+            # while both plain runs went through: an out-of-bounds access all the same
+            d_ = a.get("desc") or {}
+            out.append(dict(base, status="violated", nontrivial=True,
+                            viol=dict(solver=d_.get("solver"), datafit=d_.get("datafit"), penalty=d_.get("penalty"),
+                                      storage=d_.get("storage"), fit_intercept=d_.get("fit_intercept"),
+                                      strategy=d_.get("strategy"), mechanism="bounds-checked-run-raises", where="initialisation",
+                                      detail="checked: IndexError while initialising the datafit on the data | plain: returned"),
+                            obs=dict(case=d_, checked_error=b["harness_error"][-600:])))
+            continue
         if any(x is None or "harness_error" in x for x in (a, a2, b)):
             out.append(dict(base, status="inconclusive", nontrivial=False,
                             obs=dict(errors=[(x or {}).get("harness_error", "missing" if x is None else None)
